@@ -791,8 +791,10 @@ class SymEval:
                      (Poly.const(abs(a.const_value())) if a.is_const() else a)) for a in args]
         key = '%s(%s)' % (name, ', '.join(a.show() for a in args))
         if len(key) > 4000:
-            # nested names grow geometrically inside iterations: fall back to a short fresh symbol
-            key = self.newsym(name + '..')
+            # nested names grow geometrically inside iterations: name the symbol by a digest of its arguments (still
+            # one symbol per function and argument tuple; sin and cos of one argument share the digest)
+            import hashlib
+            key = '%s#%s' % (name, hashlib.sha1(', '.join(a.show() for a in args).encode()).hexdigest()[:16])
         self.pure_cache[key] = Poly.sym(key)
         self.pure_args[key] = (name, list(args))
         return self.pure_cache[key]
@@ -1081,7 +1083,8 @@ class SymEval:
         if all(isinstance(v, Poly) for v in vals):
             tag = '%s(%s)' % (ce.get('name'), ', '.join(v.show() for v in vals))
             if len(tag) > 4000:
-                tag = self.newsym(str(ce.get('name')) + '..')
+                import hashlib
+                tag = '%s#%s' % (ce.get('name'), hashlib.sha1(tag.encode()).hexdigest()[:16])
         else:
             tag = self.newsym(str(ce.get('name')))
         self.calls.append((ce.get('q'), vals, tag))
